@@ -42,7 +42,11 @@ pub const FAMILIES: &[(Family, &str)] = &[
 ];
 
 pub fn fam_name(f: Family) -> &'static str {
-    FAMILIES.iter().find(|(g, _)| *g == f).map(|(_, n)| *n).unwrap_or("other")
+    FAMILIES
+        .iter()
+        .find(|(g, _)| *g == f)
+        .map(|(_, n)| *n)
+        .unwrap_or("other")
 }
 
 pub fn is_flowspec(f: Family) -> bool {
@@ -51,7 +55,6 @@ pub fn is_flowspec(f: Family) -> bool {
         || f == Family::IPV4_FLOWSPEC_VPN
         || f == Family::IPV6_FLOWSPEC_VPN
 }
-
 
 pub fn attr_canon(a: &Attribute) -> String {
     // content, not representation: code, the flag bits that matter, value
@@ -84,7 +87,12 @@ pub fn short(s: &str, n: usize) -> String {
 }
 
 pub fn rand_v4(rng: &mut Rng) -> Ipv4Addr {
-    Ipv4Addr::new(rng.range(1, 223) as u8, rng.next_u32() as u8, rng.next_u32() as u8, rng.range(1, 254) as u8)
+    Ipv4Addr::new(
+        rng.range(1, 223) as u8,
+        rng.next_u32() as u8,
+        rng.next_u32() as u8,
+        rng.range(1, 254) as u8,
+    )
 }
 
 pub fn rand_v6(rng: &mut Rng) -> Ipv6Addr {
@@ -108,24 +116,55 @@ pub fn rand_ll(rng: &mut Rng) -> Ipv6Addr {
 }
 
 pub fn v4net(rng: &mut Rng) -> Ipv4Net {
-    let mask = if rng.chance(1, 10) { rng.range(0, 32) as u8 } else { rng.range(8, 32) as u8 };
+    let mask = if rng.chance(1, 10) {
+        rng.range(0, 32) as u8
+    } else {
+        rng.range(8, 32) as u8
+    };
     let a = rng.next_u32();
-    let m = if mask == 0 { 0 } else { a & (u32::MAX << (32 - mask as u32)) };
-    Ipv4Net { addr: Ipv4Addr::from(m), mask }
+    let m = if mask == 0 {
+        0
+    } else {
+        a & (u32::MAX << (32 - mask as u32))
+    };
+    Ipv4Net {
+        addr: Ipv4Addr::from(m),
+        mask,
+    }
 }
 
 pub fn v6net(rng: &mut Rng) -> Ipv6Net {
-    let mask = if rng.chance(1, 10) { rng.range(0, 128) as u8 } else { rng.range(16, 64) as u8 };
+    let mask = if rng.chance(1, 10) {
+        rng.range(0, 128) as u8
+    } else {
+        rng.range(16, 64) as u8
+    };
     let a = ((rng.next_u64() as u128) << 64) | rng.next_u64() as u128;
-    let m = if mask == 0 { 0 } else { a & (u128::MAX << (128 - mask as u32)) };
-    Ipv6Net { addr: Ipv6Addr::from(m), mask }
+    let m = if mask == 0 {
+        0
+    } else {
+        a & (u128::MAX << (128 - mask as u32))
+    };
+    Ipv6Net {
+        addr: Ipv6Addr::from(m),
+        mask,
+    }
 }
 
 pub fn rand_rd(rng: &mut Rng) -> RouteDistinguisher {
     match rng.below(3) {
-        0 => RouteDistinguisher::TwoOctetAs { admin: rng.next_u32() as u16, assigned: rng.next_u32() },
-        1 => RouteDistinguisher::Ipv4 { admin: rand_v4(rng), assigned: rng.next_u32() as u16 },
-        _ => RouteDistinguisher::FourOctetAs { admin: rng.next_u32(), assigned: rng.next_u32() as u16 },
+        0 => RouteDistinguisher::TwoOctetAs {
+            admin: rng.next_u32() as u16,
+            assigned: rng.next_u32(),
+        },
+        1 => RouteDistinguisher::Ipv4 {
+            admin: rand_v4(rng),
+            assigned: rng.next_u32() as u16,
+        },
+        _ => RouteDistinguisher::FourOctetAs {
+            admin: rng.next_u32(),
+            assigned: rng.next_u32() as u16,
+        },
     }
 }
 
@@ -135,7 +174,11 @@ pub fn labels(rng: &mut Rng, reach: bool, labeled_unicast: bool) -> mpls::MplsLa
         return mpls::MplsLabelStack::new(vec![mpls::MplsLabel::new(0)]);
     }
     let n = if rng.chance(1, 6) { 2 } else { 1 };
-    mpls::MplsLabelStack::new((0..n).map(|_| mpls::MplsLabel::new(rng.range(16, 0xFFFFF) as u32)).collect())
+    mpls::MplsLabelStack::new(
+        (0..n)
+            .map(|_| mpls::MplsLabel::new(rng.range(16, 0xFFFFF) as u32))
+            .collect(),
+    )
 }
 
 pub fn fs_ops(rng: &mut Rng) -> Vec<flowspec::Op> {
@@ -167,7 +210,10 @@ pub fn fs_v4(rng: &mut Rng) -> Vec<flowspec::FlowspecV4Component> {
 }
 
 pub fn fs_v6(rng: &mut Rng) -> Vec<flowspec::FlowspecV6Component> {
-    let mut c = vec![flowspec::FlowspecV6Component::DstPrefix { prefix: v6net(rng), offset: 0 }];
+    let mut c = vec![flowspec::FlowspecV6Component::DstPrefix {
+        prefix: v6net(rng),
+        offset: 0,
+    }];
     if rng.bool() {
         c.push(flowspec::FlowspecV6Component::NextHeader(fs_ops(rng)));
     }
@@ -183,24 +229,43 @@ pub fn gen_nlri(rng: &mut Rng, f: Family, reach: bool) -> Nlri {
     } else if f == Family::IPV6 || f == Family::IPV6_MC {
         Nlri::V6(v6net(rng))
     } else if f == Family::IPV4_MPLS {
-        Nlri::LabeledV4(labeled::LabeledV4Nlri { labels: labels(rng, reach, true), prefix: v4net(rng) })
+        Nlri::LabeledV4(labeled::LabeledV4Nlri {
+            labels: labels(rng, reach, true),
+            prefix: v4net(rng),
+        })
     } else if f == Family::IPV6_MPLS {
-        Nlri::LabeledV6(labeled::LabeledV6Nlri { labels: labels(rng, reach, true), prefix: v6net(rng) })
+        Nlri::LabeledV6(labeled::LabeledV6Nlri {
+            labels: labels(rng, reach, true),
+            prefix: v6net(rng),
+        })
     } else if f == Family::IPV4_VPN {
-        Nlri::VpnV4(vpn::VpnV4Nlri { labels: labels(rng, reach, false), rd: rand_rd(rng), prefix: v4net(rng) })
+        Nlri::VpnV4(vpn::VpnV4Nlri {
+            labels: labels(rng, reach, false),
+            rd: rand_rd(rng),
+            prefix: v4net(rng),
+        })
     } else if f == Family::IPV6_VPN {
-        Nlri::VpnV6(vpn::VpnV6Nlri { labels: labels(rng, reach, false), rd: rand_rd(rng), prefix: v6net(rng) })
+        Nlri::VpnV6(vpn::VpnV6Nlri {
+            labels: labels(rng, reach, false),
+            rd: rand_rd(rng),
+            prefix: v6net(rng),
+        })
     } else if f == Family::RTC {
         Nlri::Rtc(rtc::RtcNlri {
             match_type: match rng.below(3) {
                 0 => rtc::MatchType::Wildcard,
-                1 => rtc::MatchType::AsWildcard { origin_as: rng.next_u32() },
+                1 => rtc::MatchType::AsWildcard {
+                    origin_as: rng.next_u32(),
+                },
                 _ => {
                     let mut rt = [0u8; 8];
                     rt.copy_from_slice(&rng.bytes(8));
                     rt[0] = 0;
                     rt[1] = 2;
-                    rtc::MatchType::ExactMatch { origin_as: rng.next_u32(), route_target: rt }
+                    rtc::MatchType::ExactMatch {
+                        origin_as: rng.next_u32(),
+                        route_target: rt,
+                    }
                 }
             },
         })
@@ -213,57 +278,97 @@ pub fn gen_nlri(rng: &mut Rng, f: Family, reach: bool) -> Nlri {
             0 => {
                 let mut mac = [0u8; 6];
                 mac.copy_from_slice(&rng.bytes(6));
-                Nlri::Evpn(evpn::EvpnNlri::MacIpAdvertisement(evpn::MacIpAdvertisement {
-                    rd: rand_rd(rng),
-                    esi: evpn::Esi(esi),
-                    etag: rng.next_u32(),
-                    mac,
-                    ip: match rng.below(3) {
-                        0 => None,
-                        1 => Some(IpAddr::V4(rand_v4(rng))),
-                        _ => Some(IpAddr::V6(rand_v6(rng))),
+                Nlri::Evpn(evpn::EvpnNlri::MacIpAdvertisement(
+                    evpn::MacIpAdvertisement {
+                        rd: rand_rd(rng),
+                        esi: evpn::Esi(esi),
+                        etag: rng.next_u32(),
+                        mac,
+                        ip: match rng.below(3) {
+                            0 => None,
+                            1 => Some(IpAddr::V4(rand_v4(rng))),
+                            _ => Some(IpAddr::V6(rand_v6(rng))),
+                        },
+                        label1: rng.below(1 << 24) as u32,
+                        label2: if rng.chance(1, 4) {
+                            Some(rng.below(1 << 24) as u32)
+                        } else {
+                            None
+                        },
                     },
-                    label1: rng.below(1 << 24) as u32,
-                    label2: if rng.chance(1, 4) { Some(rng.below(1 << 24) as u32) } else { None },
-                }))
+                ))
             }
-            1 => Nlri::Evpn(evpn::EvpnNlri::InclusiveMulticastEthernetTag(evpn::InclusiveMulticastEthernetTag {
-                rd: rand_rd(rng),
-                etag: rng.next_u32(),
-                originating_router_ip: if rng.bool() { IpAddr::V4(rand_v4(rng)) } else { IpAddr::V6(rand_v6(rng)) },
-            })),
+            1 => Nlri::Evpn(evpn::EvpnNlri::InclusiveMulticastEthernetTag(
+                evpn::InclusiveMulticastEthernetTag {
+                    rd: rand_rd(rng),
+                    etag: rng.next_u32(),
+                    originating_router_ip: if rng.bool() {
+                        IpAddr::V4(rand_v4(rng))
+                    } else {
+                        IpAddr::V6(rand_v6(rng))
+                    },
+                },
+            )),
             _ => {
                 let v6 = rng.bool();
                 let (p, l, g) = if v6 {
                     let n = v6net(rng);
-                    (IpAddr::V6(n.addr), n.mask, IpAddr::V6(Ipv6Addr::UNSPECIFIED))
+                    (
+                        IpAddr::V6(n.addr),
+                        n.mask,
+                        IpAddr::V6(Ipv6Addr::UNSPECIFIED),
+                    )
                 } else {
                     let n = v4net(rng);
-                    (IpAddr::V4(n.addr), n.mask, IpAddr::V4(Ipv4Addr::UNSPECIFIED))
+                    (
+                        IpAddr::V4(n.addr),
+                        n.mask,
+                        IpAddr::V4(Ipv4Addr::UNSPECIFIED),
+                    )
                 };
-                Nlri::Evpn(evpn::EvpnNlri::EthernetIpPrefix(evpn::EthernetIpPrefixRoute {
-                    rd: rand_rd(rng),
-                    esi: evpn::Esi(esi),
-                    etag: rng.next_u32(),
-                    ip_prefix: p,
-                    prefix_len: l,
-                    gateway_ip: g,
-                    label: rng.below(1 << 24) as u32,
-                }))
+                Nlri::Evpn(evpn::EvpnNlri::EthernetIpPrefix(
+                    evpn::EthernetIpPrefixRoute {
+                        rd: rand_rd(rng),
+                        esi: evpn::Esi(esi),
+                        etag: rng.next_u32(),
+                        ip_prefix: p,
+                        prefix_len: l,
+                        gateway_ip: g,
+                        label: rng.below(1 << 24) as u32,
+                    },
+                ))
             }
         }
     } else if f == Family::IPV4_FLOWSPEC {
-        Nlri::FlowspecV4(flowspec::FlowspecV4Nlri { components: fs_v4(rng) })
+        Nlri::FlowspecV4(flowspec::FlowspecV4Nlri {
+            components: fs_v4(rng),
+        })
     } else if f == Family::IPV6_FLOWSPEC {
-        Nlri::FlowspecV6(flowspec::FlowspecV6Nlri { components: fs_v6(rng) })
+        Nlri::FlowspecV6(flowspec::FlowspecV6Nlri {
+            components: fs_v6(rng),
+        })
     } else if f == Family::IPV4_FLOWSPEC_VPN {
-        Nlri::FlowspecVpnV4(flowspec::FlowspecVpnV4Nlri { rd: rand_rd(rng), components: fs_v4(rng) })
+        Nlri::FlowspecVpnV4(flowspec::FlowspecVpnV4Nlri {
+            rd: rand_rd(rng),
+            components: fs_v4(rng),
+        })
     } else if f == Family::IPV6_FLOWSPEC_VPN {
-        Nlri::FlowspecVpnV6(flowspec::FlowspecVpnV6Nlri { rd: rand_rd(rng), components: fs_v6(rng) })
+        Nlri::FlowspecVpnV6(flowspec::FlowspecVpnV6Nlri {
+            rd: rand_rd(rng),
+            components: fs_v6(rng),
+        })
     } else if f == Family::IPV4_SRPOLICY {
-        Nlri::SrPolicy(sr_policy::SrPolicyNlri { distinguisher: rng.next_u32(), color: rng.next_u32(), endpoint: IpAddr::V4(rand_v4(rng)) })
+        Nlri::SrPolicy(sr_policy::SrPolicyNlri {
+            distinguisher: rng.next_u32(),
+            color: rng.next_u32(),
+            endpoint: IpAddr::V4(rand_v4(rng)),
+        })
     } else if f == Family::IPV6_SRPOLICY {
-        Nlri::SrPolicy(sr_policy::SrPolicyNlri { distinguisher: rng.next_u32(), color: rng.next_u32(), endpoint: IpAddr::V6(rand_v6(rng)) })
+        Nlri::SrPolicy(sr_policy::SrPolicyNlri {
+            distinguisher: rng.next_u32(),
+            color: rng.next_u32(),
+            endpoint: IpAddr::V6(rand_v6(rng)),
+        })
     } else if f == Family::IPV4_MUP || f == Family::IPV6_MUP {
         let v6 = f == Family::IPV6_MUP;
         if rng.bool() {
@@ -274,10 +379,25 @@ pub fn gen_nlri(rng: &mut Rng, f: Family, reach: bool) -> Nlri {
                 let n = v4net(rng);
                 (IpAddr::V4(n.addr), n.mask)
             };
-            Nlri::Mup(mup::MupNlri::InterworkSegmentDiscovery(mup::MupInterworkSegmentDiscoveryRoute { rd: rand_rd(rng), prefix_addr: a, prefix_len: l }))
+            Nlri::Mup(mup::MupNlri::InterworkSegmentDiscovery(
+                mup::MupInterworkSegmentDiscoveryRoute {
+                    rd: rand_rd(rng),
+                    prefix_addr: a,
+                    prefix_len: l,
+                },
+            ))
         } else {
-            let a = if v6 { IpAddr::V6(rand_v6(rng)) } else { IpAddr::V4(rand_v4(rng)) };
-            Nlri::Mup(mup::MupNlri::DirectSegmentDiscovery(mup::MupDirectSegmentDiscoveryRoute { rd: rand_rd(rng), address: a }))
+            let a = if v6 {
+                IpAddr::V6(rand_v6(rng))
+            } else {
+                IpAddr::V4(rand_v4(rng))
+            };
+            Nlri::Mup(mup::MupNlri::DirectSegmentDiscovery(
+                mup::MupDirectSegmentDiscoveryRoute {
+                    rd: rand_rd(rng),
+                    address: a,
+                },
+            ))
         }
     } else {
         // BGP-LS node NLRI
@@ -286,7 +406,11 @@ pub fn gen_nlri(rng: &mut Rng, f: Family, reach: bool) -> Nlri {
             identifier: rng.next_u64(),
             local_node: ls::NodeDescriptor {
                 asn: Some(rng.next_u32()),
-                bgp_ls_id: if rng.bool() { Some(rng.next_u32()) } else { None },
+                bgp_ls_id: if rng.bool() {
+                    Some(rng.next_u32())
+                } else {
+                    None
+                },
                 ospf_area_id: None,
                 igp_router_id: Some(rbytes(rng, 4, 6, 2)),
                 bgp_router_id: None,
@@ -328,7 +452,11 @@ pub fn gen_as_path(rng: &mut Rng, small_as: bool) -> Attribute {
         b.push(t);
         b.push(n as u8);
         for _ in 0..n {
-            let asn: u32 = if small_as || rng.bool() { rng.range(1, 65534) as u32 } else { rng.range(65536, 4_200_000_000) as u32 };
+            let asn: u32 = if small_as || rng.bool() {
+                rng.range(1, 65534) as u32
+            } else {
+                rng.range(65536, 4_200_000_000) as u32
+            };
             b.extend_from_slice(&asn.to_be_bytes());
         }
     }
@@ -350,14 +478,22 @@ pub fn gen_attrs(rng: &mut Rng, size: AttrSize, small_as: bool) -> Vec<Attribute
         v.push(Attribute::new_with_bin(Attribute::ATOMIC_AGGREGATE, vec![]).unwrap());
     }
     if rng.chance(1, 6) {
-        let asn: u32 = if small_as || rng.bool() { rng.range(1, 65534) as u32 } else { rng.next_u32() | 0x10000 };
+        let asn: u32 = if small_as || rng.bool() {
+            rng.range(1, 65534) as u32
+        } else {
+            rng.next_u32() | 0x10000
+        };
         let mut b = asn.to_be_bytes().to_vec();
         b.extend_from_slice(&rand_v4(rng).octets());
         v.push(Attribute::new_with_bin(Attribute::AGGREGATOR, b).unwrap());
     }
     let ncomm = match size {
         AttrSize::Normal => {
-            if rng.chance(1, 2) { rng.range(1, 12) as usize } else { 0 }
+            if rng.chance(1, 2) {
+                rng.range(1, 12) as usize
+            } else {
+                0
+            }
         }
         AttrSize::Extended => rng.range(70, 300) as usize,
         AttrSize::Huge => rng.range(1050, 2500) as usize,
@@ -370,7 +506,9 @@ pub fn gen_attrs(rng: &mut Rng, size: AttrSize, small_as: bool) -> Vec<Attribute
         v.push(Attribute::new_with_bin(Attribute::CLUSTER_LIST, rbytes(rng, 1, 4, 4)).unwrap());
     }
     if rng.chance(1, 4) {
-        v.push(Attribute::new_with_bin(Attribute::EXTENDED_COMMUNITY, rbytes(rng, 1, 6, 8)).unwrap());
+        v.push(
+            Attribute::new_with_bin(Attribute::EXTENDED_COMMUNITY, rbytes(rng, 1, 6, 8)).unwrap(),
+        );
     }
     if rng.chance(1, 5) {
         v.push(Attribute::new_with_bin(Attribute::LARGE_COMMUNITY, rbytes(rng, 1, 5, 12)).unwrap());
@@ -381,14 +519,22 @@ pub fn gen_attrs(rng: &mut Rng, size: AttrSize, small_as: bool) -> Vec<Attribute
         v.push(Attribute::new_with_bin(Attribute::AIGP, b).unwrap());
     }
     if rng.chance(1, 16) {
-        let code = *rng.pick(&[Attribute::PREFIX_SID, Attribute::LS, Attribute::TUNNEL_ENCAP]);
+        let code = *rng.pick(&[
+            Attribute::PREFIX_SID,
+            Attribute::LS,
+            Attribute::TUNNEL_ENCAP,
+        ]);
         v.push(Attribute::new_with_bin(code, rbytes(rng, 4, 40, 1)).unwrap());
     }
     if rng.chance(1, 8) {
         // unknown optional transitive attribute kept as an opaque blob
         let code = rng.range(100, 250) as u8;
         let flags = if rng.bool() { 0xC0 } else { 0xE0 };
-        let n = if rng.chance(1, 5) { rng.range(256, 400) } else { rng.range(0, 40) } as usize;
+        let n = if rng.chance(1, 5) {
+            rng.range(256, 400)
+        } else {
+            rng.range(0, 40)
+        } as usize;
         v.push(Attribute::new_opaque(code, flags, rng.bytes(n)));
     }
     if rng.chance(1, 10) {
@@ -402,12 +548,18 @@ pub fn gen_nexthop(rng: &mut Rng, f: Family) -> Option<Nexthop> {
         return None;
     }
     let afi = f.afi();
-    if (f == Family::IPV4_MPLS || f == Family::IPV4_MUP || f == Family::RTC || f == Family::LS) && rng.chance(4, 5) {
+    if (f == Family::IPV4_MPLS || f == Family::IPV4_MUP || f == Family::RTC || f == Family::LS)
+        && rng.chance(4, 5)
+    {
         return Some(Nexthop::V6(rand_v6(rng)));
     }
     if afi == Family::AFI_IP {
         if rng.chance(1, 6) {
-            if rng.bool() { Some(Nexthop::V6(rand_v6(rng))) } else { Some(Nexthop::V6LinkLocal(rand_v6(rng), rand_ll(rng))) }
+            if rng.bool() {
+                Some(Nexthop::V6(rand_v6(rng)))
+            } else {
+                Some(Nexthop::V6LinkLocal(rand_v6(rng), rand_ll(rng)))
+            }
         } else {
             Some(Nexthop::V4(rand_v4(rng)))
         }
@@ -464,7 +616,13 @@ impl Parsers {
                 c.two_byte_as = two;
                 c.extended_length = true;
                 for (f, _) in FAMILIES {
-                    c.set_family(*f, FamilyState { addpath_rx: addpath, addpath_tx: addpath });
+                    c.set_family(
+                        *f,
+                        FamilyState {
+                            addpath_rx: addpath,
+                            addpath_tx: addpath,
+                        },
+                    );
                 }
                 p.push(c);
             }
@@ -475,12 +633,23 @@ impl Parsers {
         &mut self.p[(addpath as usize) * 2 + two_byte as usize]
     }
     /// parse one PDU with the repository's parser; Err(clause, detail)
-    pub fn parse(&mut self, pdu: &[u8], addpath: bool, two_byte: bool) -> Result<ParsedMessage, (String, String)> {
+    pub fn parse(
+        &mut self,
+        pdu: &[u8],
+        addpath: bool,
+        two_byte: bool,
+    ) -> Result<ParsedMessage, (String, String)> {
         let c = self.get(addpath, two_byte);
         match guard(|| c.parse_message(pdu)) {
             Ok(Ok(m)) => Ok(m),
-            Ok(Err(n)) => Err(("pdu-unparsable".into(), format!("repo parser rejects the embedded PDU: {:?}", n))),
-            Err(p) => Err((format!("panic/{}:{}", p.location, panic_class(&p.message)), format!("repo parser panicked on the embedded PDU: {}", p.message))),
+            Ok(Err(n)) => Err((
+                "pdu-unparsable".into(),
+                format!("repo parser rejects the embedded PDU: {:?}", n),
+            )),
+            Err(p) => Err((
+                format!("panic/{}:{}", p.location, panic_class(&p.message)),
+                format!("repo parser panicked on the embedded PDU: {}", p.message),
+            )),
         }
     }
 }
@@ -502,7 +671,14 @@ impl Decoded {
         self.pdus += 1;
         match m {
             ParsedMessage::Update(ParsedUpdate::EndOfRib(f)) => self.eor.push(f),
-            ParsedMessage::Update(ParsedUpdate::Routes { reach, mp_reach, unreach, mp_unreach, attrs, error_attrs }) => {
+            ParsedMessage::Update(ParsedUpdate::Routes {
+                reach,
+                mp_reach,
+                unreach,
+                mp_unreach,
+                attrs,
+                error_attrs,
+            }) => {
                 let canon = attrs_canon(&attrs);
                 let mut any = false;
                 for r in reach.into_iter().chain(mp_reach) {
@@ -530,7 +706,10 @@ impl Decoded {
     }
 }
 
-pub fn multiset_diff(want: &[(Family, PathNlri)], got: &[(Family, PathNlri)]) -> (Vec<(Family, PathNlri)>, Vec<(Family, PathNlri)>) {
+pub fn multiset_diff(
+    want: &[(Family, PathNlri)],
+    got: &[(Family, PathNlri)],
+) -> (Vec<(Family, PathNlri)>, Vec<(Family, PathNlri)>) {
     let mut m: HashMap<(Family, &PathNlri), i64> = HashMap::new();
     for (f, e) in want {
         *m.entry((*f, e)).or_insert(0) += 1;
@@ -551,9 +730,18 @@ pub fn multiset_diff(want: &[(Family, PathNlri)], got: &[(Family, PathNlri)]) ->
 }
 
 pub fn show_entries(v: &[(Family, PathNlri)]) -> String {
-    let mut s: Vec<String> = v.iter().take(5).map(|(f, e)| format!("{}:{}#{}", fam_name(*f), e.nlri, e.path_id)).collect();
+    let mut s: Vec<String> = v
+        .iter()
+        .take(5)
+        .map(|(f, e)| format!("{}:{}#{}", fam_name(*f), e.nlri, e.path_id))
+        .collect();
     s.sort();
-    format!("{} entr{} e.g. [{}]", v.len(), if v.len() == 1 { "y" } else { "ies" }, s.join(", "))
+    format!(
+        "{} entr{} e.g. [{}]",
+        v.len(),
+        if v.len() == 1 { "y" } else { "ies" },
+        s.join(", ")
+    )
 }
 
 pub fn open_eq(a: &Open, b: &Open) -> bool {
@@ -564,7 +752,13 @@ pub fn open_eq(a: &Open, b: &Open) -> bool {
 }
 
 pub fn open_str(o: &Open) -> String {
-    format!("AS{} hold={} id={} caps={:?}", o.as_number, o.holdtime.seconds(), Ipv4Addr::from(o.router_id), o.capability)
+    format!(
+        "AS{} hold={} id={} caps={:?}",
+        o.as_number,
+        o.holdtime.seconds(),
+        Ipv4Addr::from(o.router_id),
+        o.capability
+    )
 }
 
 pub fn open_stable(ps: &mut Parsers, o: &Open) -> bool {
@@ -581,17 +775,26 @@ pub fn open_stable(ps: &mut Parsers, o: &Open) -> bool {
 }
 
 pub fn notif_str(n: &Notification) -> String {
-    format!("code={} subcode={} data={}", n.notification_code(), n.notification_subcode(), short(&hex(n.notification_data()), 80))
+    format!(
+        "code={} subcode={} data={}",
+        n.notification_code(),
+        n.notification_subcode(),
+        short(&hex(n.notification_data()), 80)
+    )
 }
 
 pub fn notif_eq(a: &Notification, b: &Notification) -> bool {
-    a.notification_code() == b.notification_code() && a.notification_subcode() == b.notification_subcode() && a.notification_data() == b.notification_data()
+    a.notification_code() == b.notification_code()
+        && a.notification_subcode() == b.notification_subcode()
+        && a.notification_data() == b.notification_data()
 }
 
 pub fn cap_len(c: &Capability) -> usize {
     2 + match c {
         Capability::MultiProtocol(_) => 4,
-        Capability::RouteRefresh | Capability::ExtendedMessage | Capability::EnhancedRouteRefresh => 0,
+        Capability::RouteRefresh
+        | Capability::ExtendedMessage
+        | Capability::EnhancedRouteRefresh => 0,
         Capability::ExtendedNexthop(v) => 6 * v.len(),
         Capability::GracefulRestart { families, .. } => 2 + 4 * families.len(),
         Capability::FourOctetAsNumber(_) => 4,
@@ -625,28 +828,61 @@ pub fn gen_open(rng: &mut Rng, asn: u32, id: Ipv4Addr) -> Open {
         caps.push(Capability::ExtendedMessage);
     }
     if rng.chance(1, 4) {
-        let v: Vec<(Family, u16)> = fams.iter().filter(|f| f.afi() == Family::AFI_IP).map(|f| (*f, Family::AFI_IP6)).collect();
+        let v: Vec<(Family, u16)> = fams
+            .iter()
+            .filter(|f| f.afi() == Family::AFI_IP)
+            .map(|f| (*f, Family::AFI_IP6))
+            .collect();
         if !v.is_empty() {
             caps.push(Capability::ExtendedNexthop(v));
         }
     }
     if rng.chance(1, 3) && !fams.is_empty() {
-        caps.push(Capability::AddPath(fams.iter().map(|f| (*f, rng.range(1, 3) as u8)).collect()));
+        caps.push(Capability::AddPath(
+            fams.iter().map(|f| (*f, rng.range(1, 3) as u8)).collect(),
+        ));
     }
     if rng.chance(1, 3) {
-        caps.push(Capability::GracefulRestart { flags: rng.below(16) as u8, restart_time: rng.below(4096) as u16, families: fams.iter().map(|f| (*f, if rng.bool() { 0x80 } else { 0 })).collect() });
+        caps.push(Capability::GracefulRestart {
+            flags: rng.below(16) as u8,
+            restart_time: rng.below(4096) as u16,
+            families: fams
+                .iter()
+                .map(|f| (*f, if rng.bool() { 0x80 } else { 0 }))
+                .collect(),
+        });
     }
     if rng.chance(1, 5) && !fams.is_empty() {
-        caps.push(Capability::LongLivedGracefulRestart(fams.iter().map(|f| (*f, if rng.bool() { 0x80 } else { 0 }, rng.below(1 << 24) as u32)).collect()));
+        caps.push(Capability::LongLivedGracefulRestart(
+            fams.iter()
+                .map(|f| {
+                    (
+                        *f,
+                        if rng.bool() { 0x80 } else { 0 },
+                        rng.below(1 << 24) as u32,
+                    )
+                })
+                .collect(),
+        ));
     }
     if rng.chance(1, 5) {
         caps.push(Capability::EnhancedRouteRefresh);
     }
     if rng.chance(1, 5) {
-        caps.push(Capability::Fqdn { hostname: format!("r{}", rng.below(1000)), domain: if rng.bool() { "example.net".into() } else { String::new() } });
+        caps.push(Capability::Fqdn {
+            hostname: format!("r{}", rng.below(1000)),
+            domain: if rng.bool() {
+                "example.net".into()
+            } else {
+                String::new()
+            },
+        });
     }
     if rng.chance(1, 6) {
-        caps.push(Capability::Unknown { code: rng.range(128, 250) as u8, bin: rbytes(rng, 0, 12, 1) });
+        caps.push(Capability::Unknown {
+            code: rng.range(128, 250) as u8,
+            bin: rbytes(rng, 0, 12, 1),
+        });
     }
     // an OPEN that was on the wire has at most 255 bytes of optional parameters
     while caps.iter().map(cap_len).sum::<usize>() > 253 {
@@ -658,7 +894,12 @@ pub fn gen_open(rng: &mut Rng, asn: u32, id: Ipv4Addr) -> Open {
         2 => 65535,
         _ => rng.range(3, 600) as u16,
     };
-    Open { as_number: asn, holdtime: HoldTime::new(hold).unwrap(), router_id: u32::from(id), capability: caps }
+    Open {
+        as_number: asn,
+        holdtime: HoldTime::new(hold).unwrap(),
+        router_id: u32::from(id),
+        capability: caps,
+    }
 }
 
 pub fn gen_notification(rng: &mut Rng) -> Notification {
@@ -679,7 +920,11 @@ pub fn gen_notification(rng: &mut Rng) -> Notification {
     };
     // data as `from_notification` keeps it: what a received NOTIFICATION turns into
     let n0 = Notification::from_notification(code, sub, rng.bytes(n));
-    Notification::from_notification(n0.notification_code(), n0.notification_subcode(), n0.notification_data().to_vec())
+    Notification::from_notification(
+        n0.notification_code(),
+        n0.notification_subcode(),
+        n0.notification_data().to_vec(),
+    )
 }
 
 pub struct BmpRec<'a> {
@@ -693,16 +938,35 @@ pub fn read_bmp(b: &[u8]) -> Result<Vec<BmpRec<'_>>, (String, String)> {
     let mut o = 0usize;
     while o < b.len() {
         if b.len() - o < 6 {
-            return Err(("common-length".into(), format!("{} stray bytes after the last message", b.len() - o)));
+            return Err((
+                "common-length".into(),
+                format!("{} stray bytes after the last message", b.len() - o),
+            ));
         }
         if b[o] != 3 {
-            return Err(("common-length".into(), format!("at offset {} a message should start but version byte is {} (length field of the previous message wrong?)", o, b[o])));
+            return Err((
+                "common-length".into(),
+                format!(
+                    "at offset {} a message should start but version byte is {} (length field of the previous message wrong?)",
+                    o, b[o]
+                ),
+            ));
         }
         let l = u32::from_be_bytes([b[o + 1], b[o + 2], b[o + 3], b[o + 4]]) as usize;
         if l < 6 || o + l > b.len() {
-            return Err(("common-length".into(), format!("length field {} but {} bytes were emitted from the start of this message", l, b.len() - o)));
+            return Err((
+                "common-length".into(),
+                format!(
+                    "length field {} but {} bytes were emitted from the start of this message",
+                    l,
+                    b.len() - o
+                ),
+            ));
         }
-        out.push(BmpRec { typ: b[o + 5], body: &b[o + 6..o + l] });
+        out.push(BmpRec {
+            typ: b[o + 5],
+            body: &b[o + 6..o + l],
+        });
         o += l;
     }
     Ok(out)
@@ -724,7 +988,10 @@ pub fn read_tlvs(b: &[u8]) -> Result<Vec<(u16, Vec<u8>)>, String> {
     let mut o = 0;
     while o < b.len() {
         if b.len() - o < 4 {
-            return Err(format!("{} stray bytes where a TLV should start", b.len() - o));
+            return Err(format!(
+                "{} stray bytes where a TLV should start",
+                b.len() - o
+            ));
         }
         let t = u16::from_be_bytes([b[o], b[o + 1]]);
         let l = u16::from_be_bytes([b[o + 2], b[o + 3]]) as usize;
@@ -754,18 +1021,51 @@ pub fn bmp_type_name(t: u8) -> &'static str {
 pub fn one_pdu<'a>(b: &'a [u8], want: u8) -> Result<&'a [u8], (String, String)> {
     let (pdus, err) = split_pdus(b);
     if pdus.len() > 1 {
-        return Err(("multiple-pdus".into(), format!("{} BGP PDUs (lengths {:?}) where exactly one is allowed", pdus.len(), pdus.iter().map(|p| p.len()).collect::<Vec<_>>())));
+        return Err((
+            "multiple-pdus".into(),
+            format!(
+                "{} BGP PDUs (lengths {:?}) where exactly one is allowed",
+                pdus.len(),
+                pdus.iter().map(|p| p.len()).collect::<Vec<_>>()
+            ),
+        ));
     }
     if pdus.is_empty() {
         let why = err.map(|e| e.1).unwrap_or("empty");
-        let clause = if why == "overrun" { "pdu-overrun" } else { "pdu-framing" };
-        return Err((clause.into(), format!("no well-framed BGP PDU ({}); {} bytes available, header says {}", why, b.len(), if b.len() >= 18 { u16::from_be_bytes([b[16], b[17]]) as usize } else { 0 })));
+        let clause = if why == "overrun" {
+            "pdu-overrun"
+        } else {
+            "pdu-framing"
+        };
+        return Err((
+            clause.into(),
+            format!(
+                "no well-framed BGP PDU ({}); {} bytes available, header says {}",
+                why,
+                b.len(),
+                if b.len() >= 18 {
+                    u16::from_be_bytes([b[16], b[17]]) as usize
+                } else {
+                    0
+                }
+            ),
+        ));
     }
     if let Some((at, why)) = err {
-        return Err(("trailing-bytes".into(), format!("{} bytes after the PDU do not form a PDU ({})", b.len() - at, why)));
+        return Err((
+            "trailing-bytes".into(),
+            format!(
+                "{} bytes after the PDU do not form a PDU ({})",
+                b.len() - at,
+                why
+            ),
+        ));
     }
     if pdus[0][18] != want {
-        return Err(("pdu-type".into(), format!("embedded PDU has type {} expected {}", pdus[0][18], want)));
+        return Err((
+            "pdu-type".into(),
+            format!("embedded PDU has type {} expected {}", pdus[0][18], want),
+        ));
     }
     Ok(pdus[0])
 }
@@ -783,16 +1083,31 @@ pub fn read_mrt(b: &[u8]) -> Result<Vec<MrtRec<'_>>, (String, String)> {
     let mut o = 0usize;
     while o < b.len() {
         if b.len() - o < 12 {
-            return Err(("common-length".into(), format!("{} stray bytes after the last record", b.len() - o)));
+            return Err((
+                "common-length".into(),
+                format!("{} stray bytes after the last record", b.len() - o),
+            ));
         }
         let ts = u32::from_be_bytes([b[o], b[o + 1], b[o + 2], b[o + 3]]);
         let typ = u16::from_be_bytes([b[o + 4], b[o + 5]]);
         let subtype = u16::from_be_bytes([b[o + 6], b[o + 7]]);
         let l = u32::from_be_bytes([b[o + 8], b[o + 9], b[o + 10], b[o + 11]]) as usize;
         if o + 12 + l > b.len() {
-            return Err(("common-length".into(), format!("length field {} but only {} bytes follow the header", l, b.len() - o - 12)));
+            return Err((
+                "common-length".into(),
+                format!(
+                    "length field {} but only {} bytes follow the header",
+                    l,
+                    b.len() - o - 12
+                ),
+            ));
         }
-        out.push(MrtRec { ts, typ, subtype, body: &b[o + 12..o + 12 + l] });
+        out.push(MrtRec {
+            ts,
+            typ,
+            subtype,
+            body: &b[o + 12..o + 12 + l],
+        });
         o += 12 + l;
     }
     Ok(out)
@@ -832,7 +1147,13 @@ pub fn read_mp(b: &[u8], as4: bool) -> Result<MpRead<'_>, String> {
     if b.len() < 2 * w + 4 {
         return Err("shorter than the BGP4MP header".into());
     }
-    let rd = |o: usize| -> u32 { if as4 { u32::from_be_bytes([b[o], b[o + 1], b[o + 2], b[o + 3]]) } else { u16::from_be_bytes([b[o], b[o + 1]]) as u32 } };
+    let rd = |o: usize| -> u32 {
+        if as4 {
+            u32::from_be_bytes([b[o], b[o + 1], b[o + 2], b[o + 3]])
+        } else {
+            u16::from_be_bytes([b[o], b[o + 1]]) as u32
+        }
+    };
     let (remote_as, local_as) = (rd(0), rd(w));
     let o = 2 * w;
     let ifidx = u16::from_be_bytes([b[o], b[o + 1]]);
@@ -850,7 +1171,15 @@ pub fn read_mp(b: &[u8], as4: bool) -> Result<MpRead<'_>, String> {
     if rest[..16].iter().any(|x| *x != 0xff) {
         return Err("no BGP marker after the two addresses".into());
     }
-    Ok(MpRead { remote_as, local_as, ifidx, afi, remote: &b[o..o + alen], local: &b[o + alen..o + 2 * alen], rest })
+    Ok(MpRead {
+        remote_as,
+        local_as,
+        ifidx,
+        afi,
+        remote: &b[o..o + alen],
+        local: &b[o + alen..o + 2 * alen],
+        rest,
+    })
 }
 
 pub fn ipn(a: &IpAddr) -> Vec<u8> {
@@ -865,7 +1194,10 @@ pub fn walk_attrs(b: &[u8]) -> Result<Vec<(u8, u8, &[u8], &[u8])>, String> {
     let mut o = 0;
     while o < b.len() {
         if b.len() - o < 3 {
-            return Err(format!("{} stray bytes at the end of the attribute block", b.len() - o));
+            return Err(format!(
+                "{} stray bytes at the end of the attribute block",
+                b.len() - o
+            ));
         }
         let (flags, code) = (b[o], b[o + 1]);
         let (l, h) = if flags & 0x10 != 0 {
@@ -877,7 +1209,10 @@ pub fn walk_attrs(b: &[u8]) -> Result<Vec<(u8, u8, &[u8], &[u8])>, String> {
             (b[o + 2] as usize, 3)
         };
         if o + h + l > b.len() {
-            return Err(format!("attribute {} length {} overruns the attribute block", code, l));
+            return Err(format!(
+                "attribute {} length {} overruns the attribute block",
+                code, l
+            ));
         }
         out.push((flags, code, &b[o + h..o + h + l], &b[o..o + h + l]));
         o += h + l;
@@ -901,10 +1236,16 @@ pub fn synth_update(attr_blob: &[u8], nlri: &[u8]) -> Option<Vec<u8>> {
 }
 
 /// attributes (content) and NEXT_HOP as the repository's parser reads them
-pub fn parse_attr_blob(ps: &mut Parsers, blob: &[u8], v4_prefix: Option<&[u8]>) -> Result<(String, Option<Nexthop>), String> {
+pub fn parse_attr_blob(
+    ps: &mut Parsers,
+    blob: &[u8],
+    v4_prefix: Option<&[u8]>,
+) -> Result<(String, Option<Nexthop>), String> {
     let pdu = synth_update(blob, v4_prefix.unwrap_or(&[])).ok_or("too-large")?;
     match ps.parse(&pdu, false, false) {
-        Ok(ParsedMessage::Update(ParsedUpdate::Routes { reach, attrs, .. })) => Ok((attrs_canon(&attrs), reach.and_then(|r| r.nexthop))),
+        Ok(ParsedMessage::Update(ParsedUpdate::Routes { reach, attrs, .. })) => {
+            Ok((attrs_canon(&attrs), reach.and_then(|r| r.nexthop)))
+        }
         Ok(ParsedMessage::Update(ParsedUpdate::EndOfRib(_))) => Ok((String::new(), None)),
         Ok(_) => Err("not-an-update".into()),
         Err((c, d)) => Err(format!("{}: {}", c, d)),
@@ -925,12 +1266,17 @@ pub fn nh_bytes(n: &Nexthop) -> Vec<u8> {
 
 pub fn prefix_bytes(n: &Nlri) -> (u8, Vec<u8>) {
     match n {
-        Nlri::V4(p) => (p.mask, p.addr.octets()[..(p.mask as usize).div_ceil(8)].to_vec()),
-        Nlri::V6(p) => (p.mask, p.addr.octets()[..(p.mask as usize).div_ceil(8)].to_vec()),
+        Nlri::V4(p) => (
+            p.mask,
+            p.addr.octets()[..(p.mask as usize).div_ceil(8)].to_vec(),
+        ),
+        Nlri::V6(p) => (
+            p.mask,
+            p.addr.octets()[..(p.mask as usize).div_ceil(8)].to_vec(),
+        ),
         _ => (0, vec![]),
     }
 }
-
 
 // ------------------------------------------------------------------ expectations (daemon-side monitors)
 
@@ -950,16 +1296,27 @@ pub struct RouteExp {
 impl RouteExp {
     pub fn msg(&self) -> bgp::Message {
         if self.reach {
-            bgp::Message::Update(Update::Reach { family: self.family, entries: self.entries.clone(), nexthop: self.nexthop, attr: self.attrs.clone() })
+            bgp::Message::Update(Update::Reach {
+                family: self.family,
+                entries: self.entries.clone(),
+                nexthop: self.nexthop,
+                attr: self.attrs.clone(),
+            })
         } else {
-            bgp::Message::Update(Update::Unreach { family: self.family, entries: self.entries.clone() })
+            bgp::Message::Update(Update::Unreach {
+                family: self.family,
+                entries: self.entries.clone(),
+            })
         }
     }
     pub fn attr_bytes(&self) -> usize {
         self.attrs.iter().map(|a| a.encode_to_bytes().len()).sum()
     }
     pub fn v6_nexthop(&self) -> bool {
-        matches!(self.nexthop, Some(Nexthop::V6(_)) | Some(Nexthop::V6LinkLocal(_, _)))
+        matches!(
+            self.nexthop,
+            Some(Nexthop::V6(_)) | Some(Nexthop::V6LinkLocal(_, _))
+        )
     }
     /// coarse input class for signatures (no values)
     pub fn shape(&self) -> &'static str {
@@ -978,12 +1335,26 @@ impl RouteExp {
     pub fn json(&self) -> Json {
         Json::obj(vec![
             ("family", Json::s(fam_name(self.family))),
-            ("kind", Json::s(if self.reach { "reach" } else { "unreach" })),
+            (
+                "kind",
+                Json::s(if self.reach { "reach" } else { "unreach" }),
+            ),
             ("addpath", Json::Bool(self.addpath)),
-            ("entries", Json::strs(self.entries.iter().take(6).map(|e| format!("{}#{}", e.nlri, e.path_id)))),
+            (
+                "entries",
+                Json::strs(
+                    self.entries
+                        .iter()
+                        .take(6)
+                        .map(|e| format!("{}#{}", e.nlri, e.path_id)),
+                ),
+            ),
             ("n_entries", Json::Int(self.entries.len() as i128)),
             ("nexthop", Json::s(nh_str(&self.nexthop))),
-            ("attrs", Json::strs(self.attrs.iter().map(|a| short(&attr_canon(a), 100)))),
+            (
+                "attrs",
+                Json::strs(self.attrs.iter().map(|a| short(&attr_canon(a), 100))),
+            ),
             ("attr_bytes", Json::Int(self.attr_bytes() as i128)),
         ])
     }
@@ -992,33 +1363,107 @@ impl RouteExp {
 /// Does what was parsed back equal what was monitored?  Err(clause, detail).
 pub fn compare_exp(ev: &RouteExp, d: &Decoded) -> Result<(), (String, String)> {
     if d.other > 0 {
-        return Err(("pdu-type".into(), format!("{} embedded PDUs are not UPDATEs", d.other)));
+        return Err((
+            "pdu-type".into(),
+            format!("{} embedded PDUs are not UPDATEs", d.other),
+        ));
     }
     if !d.error_attrs.is_empty() {
-        let clause = if d.error_attrs.contains(&Attribute::NEXTHOP) { "nexthop-missing" } else { "pdu-attr-error" };
-        return Err((clause.into(), format!("repo parser flags attribute errors for codes {:?}; monitored next hop {}", d.error_attrs, nh_str(&ev.nexthop))));
+        let clause = if d.error_attrs.contains(&Attribute::NEXTHOP) {
+            "nexthop-missing"
+        } else {
+            "pdu-attr-error"
+        };
+        return Err((
+            clause.into(),
+            format!(
+                "repo parser flags attribute errors for codes {:?}; monitored next hop {}",
+                d.error_attrs,
+                nh_str(&ev.nexthop)
+            ),
+        ));
     }
     if !d.eor.is_empty() {
         return Err(("unexpected-eor".into(), "a PDU parses as End-of-RIB".into()));
     }
-    let want: Vec<(Family, PathNlri)> = ev.entries.iter().map(|e| (ev.family, PathNlri { path_id: if ev.addpath { e.path_id } else { 0 }, nlri: e.nlri.clone() })).collect();
+    let want: Vec<(Family, PathNlri)> = ev
+        .entries
+        .iter()
+        .map(|e| {
+            (
+                ev.family,
+                PathNlri {
+                    path_id: if ev.addpath { e.path_id } else { 0 },
+                    nlri: e.nlri.clone(),
+                },
+            )
+        })
+        .collect();
     let empty: Vec<(Family, PathNlri)> = Vec::new();
-    let (want_r, want_u) = if ev.reach { (&want, &empty) } else { (&empty, &want) };
+    let (want_r, want_u) = if ev.reach {
+        (&want, &empty)
+    } else {
+        (&empty, &want)
+    };
     for (what, w, g) in [("nlri", want_r, &d.reach), ("withdraw", want_u, &d.unreach)] {
         let (missing, extra) = multiset_diff(w, g);
         if !missing.is_empty() && !extra.is_empty() {
-            let strip = |v: &[(Family, PathNlri)]| -> Vec<(Family, PathNlri)> { v.iter().map(|(f, e)| (*f, PathNlri { path_id: 0, nlri: e.nlri.clone() })).collect() };
+            let strip = |v: &[(Family, PathNlri)]| -> Vec<(Family, PathNlri)> {
+                v.iter()
+                    .map(|(f, e)| {
+                        (
+                            *f,
+                            PathNlri {
+                                path_id: 0,
+                                nlri: e.nlri.clone(),
+                            },
+                        )
+                    })
+                    .collect()
+            };
             let (m2, e2) = multiset_diff(&strip(&missing), &strip(&extra));
             if m2.is_empty() && e2.is_empty() {
-                return Err((format!("{}-path-id-differs", what), format!("monitored {} but parsed back {}", show_entries(&missing), show_entries(&extra))));
+                return Err((
+                    format!("{}-path-id-differs", what),
+                    format!(
+                        "monitored {} but parsed back {}",
+                        show_entries(&missing),
+                        show_entries(&extra)
+                    ),
+                ));
             }
-            return Err((format!("{}-differs", what), format!("missing {} ; unexpected {}", show_entries(&missing), show_entries(&extra))));
+            return Err((
+                format!("{}-differs", what),
+                format!(
+                    "missing {} ; unexpected {}",
+                    show_entries(&missing),
+                    show_entries(&extra)
+                ),
+            ));
         }
         if !missing.is_empty() {
-            return Err((format!("{}-lost", what), format!("monitored {} {}s, parsed back {}; missing {}", w.len(), what, g.len(), show_entries(&missing))));
+            return Err((
+                format!("{}-lost", what),
+                format!(
+                    "monitored {} {}s, parsed back {}; missing {}",
+                    w.len(),
+                    what,
+                    g.len(),
+                    show_entries(&missing)
+                ),
+            ));
         }
         if !extra.is_empty() {
-            return Err((format!("{}-extra", what), format!("monitored {} {}s, parsed back {}; unexpected {}", w.len(), what, g.len(), show_entries(&extra))));
+            return Err((
+                format!("{}-extra", what),
+                format!(
+                    "monitored {} {}s, parsed back {}; unexpected {}",
+                    w.len(),
+                    what,
+                    g.len(),
+                    show_entries(&extra)
+                ),
+            ));
         }
     }
     if ev.reach {
@@ -1026,17 +1471,33 @@ pub fn compare_exp(ev: &RouteExp, d: &Decoded) -> Result<(), (String, String)> {
         let want_nh = nh_str(&ev.nexthop);
         for (a, n) in &d.ctx {
             if *a != want_attrs {
-                return Err(("attrs-differ".into(), format!("monitored [{}] parsed back [{}]", short(&want_attrs, 600), short(a, 600))));
+                return Err((
+                    "attrs-differ".into(),
+                    format!(
+                        "monitored [{}] parsed back [{}]",
+                        short(&want_attrs, 600),
+                        short(a, 600)
+                    ),
+                ));
             }
             if *n != want_nh {
-                return Err(("nexthop-differs".into(), format!("monitored next hop {} parsed back {}", want_nh, n)));
+                return Err((
+                    "nexthop-differs".into(),
+                    format!("monitored next hop {} parsed back {}", want_nh, n),
+                ));
             }
         }
         if d.attr_only > 0 {
-            return Err(("pdu-without-nlri".into(), format!("{} PDUs carry attributes but no NLRI", d.attr_only)));
+            return Err((
+                "pdu-without-nlri".into(),
+                format!("{} PDUs carry attributes but no NLRI", d.attr_only),
+            ));
         }
     } else if d.attr_only > 0 {
-        return Err(("pdu-without-nlri".into(), "withdraw event produced a PDU without routes".into()));
+        return Err((
+            "pdu-without-nlri".into(),
+            "withdraw event produced a PDU without routes".into(),
+        ));
     }
     Ok(())
 }
@@ -1063,7 +1524,13 @@ pub fn exp_bgp_stable(ps: &mut Parsers, ev: &RouteExp, two_byte: bool) -> Result
     };
     c.extended_length = true;
     c.two_byte_as = two_byte;
-    c.set_family(ev.family, FamilyState { addpath_rx: ev.addpath, addpath_tx: ev.addpath });
+    c.set_family(
+        ev.family,
+        FamilyState {
+            addpath_rx: ev.addpath,
+            addpath_tx: ev.addpath,
+        },
+    );
     let bytes = match guard(|| {
         let mut b = BytesMut::new();
         c.encode_to(&msg, &mut b).map(|_| b.to_vec())
@@ -1099,7 +1566,11 @@ pub fn bytes_json(b: &[u8]) -> Json {
     if b.len() <= 3000 {
         Json::s(hex(b))
     } else {
-        Json::s(format!("{}…(first 3000 of {} bytes)", hex(&b[..3000]), b.len()))
+        Json::s(format!(
+            "{}…(first 3000 of {} bytes)",
+            hex(&b[..3000]),
+            b.len()
+        ))
     }
 }
 
@@ -1125,7 +1596,12 @@ impl PeerHdr {
         if self.v() {
             IpAddr::V6(Ipv6Addr::from(self.addr16))
         } else {
-            IpAddr::V4(Ipv4Addr::new(self.addr16[12], self.addr16[13], self.addr16[14], self.addr16[15]))
+            IpAddr::V4(Ipv4Addr::new(
+                self.addr16[12],
+                self.addr16[13],
+                self.addr16[14],
+                self.addr16[15],
+            ))
         }
     }
 }
@@ -1134,7 +1610,10 @@ impl PeerHdr {
 /// Structural rule checked here: V=0 requires a zero-padded IPv4 address.
 pub fn read_peer_header(b: &[u8]) -> Result<PeerHdr, (String, String)> {
     if b.len() < 42 {
-        return Err(("peer-header-short".into(), format!("{} bytes after the common header", b.len())));
+        return Err((
+            "peer-header-short".into(),
+            format!("{} bytes after the common header", b.len()),
+        ));
     }
     let mut addr16 = [0u8; 16];
     addr16.copy_from_slice(&b[10..26]);
@@ -1149,7 +1628,13 @@ pub fn read_peer_header(b: &[u8]) -> Result<PeerHdr, (String, String)> {
         usec: u32::from_be_bytes([b[38], b[39], b[40], b[41]]),
     };
     if !h.v() && addr16[..12].iter().any(|x| *x != 0) {
-        return Err(("v-flag".into(), format!("V=0 but the address field {} is not a zero-padded IPv4 address", hex(&addr16))));
+        return Err((
+            "v-flag".into(),
+            format!(
+                "V=0 but the address field {} is not a zero-padded IPv4 address",
+                hex(&addr16)
+            ),
+        ));
     }
     Ok(h)
 }
@@ -1157,10 +1642,16 @@ pub fn read_peer_header(b: &[u8]) -> Result<PeerHdr, (String, String)> {
 /// does the per-peer header encode `want` with the right V flag?
 pub fn check_hdr_addr(h: &PeerHdr, want: &IpAddr) -> Result<(), (String, String)> {
     if h.v() != want.is_ipv6() {
-        return Err(("v-flag".into(), format!("V={} for peer address {}", h.v() as u8, want)));
+        return Err((
+            "v-flag".into(),
+            format!("V={} for peer address {}", h.v() as u8, want),
+        ));
     }
     if h.addr16 != ip16(want) {
-        return Err(("peer-address".into(), format!("address field {} for peer {}", hex(&h.addr16), want)));
+        return Err((
+            "peer-address".into(),
+            format!("address field {} for peer {}", hex(&h.addr16), want),
+        ));
     }
     Ok(())
 }
